@@ -26,6 +26,14 @@ class Ctx:
     pass
 
 
+def _private(src, dst):
+    try:
+        os.link(src, dst)
+    except OSError:
+        shutil.copy2(src, dst)
+    return dst
+
+
 def prepare(chk, props_module, need_hook=True):
     """S0 translator, S1 lake build + audit, S2 cargo builds.  Returns a Ctx."""
     ctx = Ctx()
@@ -36,24 +44,31 @@ def prepare(chk, props_module, need_hook=True):
     except sched_translate.TranslateError as ex:
         chk.proof['broken'].append({'stage': 'translator', 'errors': [str(ex)], 'package': 'XvcPipeline', 'theorems': []})
         ctx.extract = None
+    try:
+        import lock_extract
+        ctx.locks = lock_extract.extract(REPO, GEN_DIR)
+        chk.extra['lock_order_extraction'] = ctx.locks
+    except Exception as ex:
+        chk.proof['broken'].append({'stage': 'lock extractor', 'errors': [str(ex)[:600]], 'package': 'XvcPipeline', 'theorems': []})
+        ctx.locks = None
     ctx.model = chk.lean('XvcPipeline', props_module, exe='schedmodel',
                          extra_modules=['XvcPipeline.Sched', 'XvcPipeline.Graph', 'XvcPipeline.Inv', 'XvcPipeline.Term',
-                                        'XvcPipeline.Topo', 'XvcPipeline.Progress', 'XvcPipeline.Relay'])
+                                        'XvcPipeline.Topo', 'XvcPipeline.Progress', 'XvcPipeline.Relay', 'XvcPipeline.LockOrder'])
     if not (ctx.model and os.path.exists(ctx.model)):
         ctx.model = None
         chk.notes.append('model driver did not build; hook traces cannot be validated')
     bindir = chk.build_harness(['sched_step'])
-    ctx.step_bin = os.path.join(bindir, 'sched_step')
-    ctx.xvc = chk.build_xvc()
+    # private names for the binaries: other checks may rebuild the shared targets while this one runs (cargo replaces the
+    # file, so a hard link keeps this build and costs no disk space; copy when the scratch dir is on another file system)
+    ctx.step_bin = _private(os.path.join(bindir, 'sched_step'), os.path.join(chk.scratch, 'sched_step'))
+    ctx.xvc = _private(chk.build_xvc(), os.path.join(chk.scratch, 'xvc-plain'))
     ctx.xvc_hook = None
     if need_hook:
         cargo = open(os.path.join(REPO, 'pipeline', 'Cargo.toml')).read()
         if re.search(r'^verif\s*=', cargo, re.M):
             ctx.xvc_hook = chk.build_xvc(features=HOOK_FEATURE)
             # the hook target directory is shared; keep a private copy of the binary for this run
-            priv = os.path.join(chk.scratch, 'xvc-hook')
-            shutil.copy2(ctx.xvc_hook, priv)
-            ctx.xvc_hook = priv
+            ctx.xvc_hook = _private(ctx.xvc_hook, os.path.join(chk.scratch, 'xvc-hook'))
         else:
             chk.proof['broken'].append({'stage': 'hook build', 'package': 'XvcPipeline', 'theorems': [],
                                         'errors': [f'{REPO}/pipeline/Cargo.toml has no cargo feature `verif` (patches/hook-pipeline.patch not applied): '
@@ -64,6 +79,7 @@ def prepare(chk, props_module, need_hook=True):
     ctx.lock = threading.Lock()
     ctx.counter = itertools.count()
     chk.trusted_base += [
+        'lock-order extractor lib/lock_extract.py (lexical rules R1-R5 in its header; limits: trait objects, guards stored in structs or returned, other crates)',
         'translator lib/sched_translate.py (anchored text extraction of the state machine, the run-condition table and the events returned by each handler)',
         'lib/sched_common.py (pipeline generators, journal oracle, trace collection), harness/src/bin/sched_step.rs (step command writing the journal)',
         'trace hooks under cargo feature `verif` of xvc-pipeline (logging and sleeps only; patches/hook-pipeline.patch)',
@@ -108,7 +124,7 @@ def random_dag(rng, n, p):
     return [(i, j) for i in range(n) for j in range(n) if pos[j] < pos[i] and rng.random() < p]
 
 
-def mk_spec(n, edges, kinds=None, whens=None, inputs=None, unspawnable=()):
+def mk_spec(n, edges, kinds=None, whens=None, inputs=None, unspawnable=(), generic=(), bigfiles=None, textdeps=()):
     """edges: (i, j) or (i, j, kind); kind in step|file|glob|globi.
     unspawnable: steps whose command cannot be SPAWNED (not: exits non-zero): they get a --line_items dependency on a
     file with a NUL byte in a selected line; xvc exports the lines in XVC_ALL_LINE_ITEMS and exec() refuses the
@@ -121,6 +137,12 @@ def mk_spec(n, edges, kinds=None, whens=None, inputs=None, unspawnable=()):
             'inputs': list(inputs) if inputs else [False] * n}
     if unspawnable:
         spec['unspawnable'] = sorted(unspawnable)
+    if generic:
+        spec['generic'] = sorted(generic)             # steps with `--generic 'cat gen/s<i>.txt'`
+    if bigfiles:
+        spec['bigfiles'] = {str(i): list(v) for i, v in bigfiles.items()}   # step -> sizes in MiB of sparse `--file` dependencies
+    if textdeps:
+        spec['textdeps'] = sorted(textdeps)           # steps with --lines, --regex, --param and --glob dependencies on small files
     return spec
 
 
@@ -138,6 +160,33 @@ def in_path(i):
 
 def nul_path(i):
     return f'nul/s{i}.txt'
+
+
+def gen_path(i):
+    return f'gen/s{i}.txt'
+
+
+def big_path(i, k):
+    return f'big/s{i}_{k}.dat'
+
+
+def refresh_changing_deps(root, spec, r):
+    """make every generic / big file / text dependency CHANGED for run r (sparse files: no disk space used)"""
+    for i in spec.get('generic', []):
+        os.makedirs(os.path.join(root, 'gen'), exist_ok=True)
+        open(os.path.join(root, gen_path(i)), 'w').write(f'generation {r}\n')
+    for i, sizes in spec.get('bigfiles', {}).items():
+        os.makedirs(os.path.join(root, 'big'), exist_ok=True)
+        for k, mb in enumerate(sizes):
+            pth = os.path.join(root, big_path(i, k))
+            with open(pth, 'ab'):
+                pass
+            os.truncate(pth, int(mb * 1024 * 1024) + r + 1)
+    for i in spec.get('textdeps', []):
+        # files in the repository root: xvc's --regex/--lines option parsers do not accept a `/` in the file name
+        open(os.path.join(root, f'lines_s{i}.txt'), 'w').write(f'alpha {r}\nbeta {r}\ngamma\n')
+        open(os.path.join(root, f'params_s{i}.yaml'), 'w').write(f'k: {r}\nother: 1\n')
+        open(os.path.join(root, f'glb_s{i}_{r % 2}.glb'), 'w').write(f'{r}\n')
 
 
 def mk_case(spec, pool, behav=None, sched=None, runs=1, missing=(), absent_outputs=False, label='', touch_inputs=False):
@@ -181,6 +230,7 @@ def build_template(ctx, spec, absent_outputs=False):
             sb.write(in_path(i), f'input {i}\n')
     for i in spec.get('unspawnable', []):
         sb.write(nul_path(i), b'first\nsecond\0line\nthird\n')
+    refresh_changing_deps(sb.root, {k: v for k, v in spec.items() if k in ('generic', 'textdeps')}, 0)
     log = []
 
     def x(*args):
@@ -210,6 +260,13 @@ def build_template(ctx, spec, absent_outputs=False):
             args += ['--file', in_path(i)]
         if i in spec.get('unspawnable', []):
             args += ['--line_items', f'{nul_path(i)}::1-3']
+        if i in spec.get('generic', []):
+            args += ['--generic', f'cat {gen_path(i)}']
+        for k in range(len(spec.get('bigfiles', {}).get(str(i), []))):
+            args += ['--file', big_path(i, k)]
+        if i in spec.get('textdeps', []):
+            args += ['--lines', f'lines_s{i}.txt::1-2', '--regex', f'lines_s{i}.txt:/^a/',
+                     '--param', f'params_s{i}.yaml::k', '--glob', f'glb_s{i}_*.glb']
         if args:
             x('step', 'dependency', '-s', f's{i}', *args)
     for j in sorted(need_out):
@@ -237,23 +294,68 @@ def _proc_children(pid):
     return out
 
 
+def _proc_cpu_ticks(pid):
+    """utime+stime of the process (all threads) and the states of its threads"""
+    try:
+        st = open(f'/proc/{pid}/stat').read()
+        f = st[st.rindex(')') + 2:].split()
+        ticks = int(f[11]) + int(f[12])
+    except (OSError, ValueError, IndexError):
+        return None, []
+    states = []
+    try:
+        for t in os.listdir(f'/proc/{pid}/task'):
+            try:
+                ts = open(f'/proc/{pid}/task/{t}/stat').read()
+                wchan = open(f'/proc/{pid}/task/{t}/wchan').read().strip()
+                states.append(ts[ts.rindex(')') + 2] + ':' + wchan)
+            except OSError:
+                pass
+    except OSError:
+        pass
+    return ticks, states
+
+
 def run_xvc(ctx, root, env, binary, pool, timeout, verbose=False):
-    """one `xvc pipeline run`; returns observation dict"""
+    """one `xvc pipeline run`; returns observation dict.
+    A run that is still alive at the timeout is OBSERVED before it is judged: if it finishes within the grace period it was
+    slow (a stall of the shared machine makes healthy runs exceed any timeout), not hung.  It counts as not terminating
+    when it is still alive after the grace period and used (almost) no CPU in it (blocked or polling), or is still alive
+    after the long grace period."""
     argv = [binary, '--skip-git', '-c', f'pipeline.process_pool_size={pool}'] + (['-vvv'] if verbose else []) + ['pipeline', 'run']
     t0 = time.time()
     p = subprocess.Popen(argv, cwd=root, env=env, stdout=subprocess.PIPE, stderr=subprocess.PIPE, start_new_session=True)
-    timed_out, children = False, []
+    timed_out, children, hang = False, [], None
     try:
         out, err = p.communicate(timeout=timeout)
     except subprocess.TimeoutExpired:
-        timed_out = True
-        children = _proc_children(p.pid)
-        try:
-            os.killpg(p.pid, signal.SIGKILL)
-        except OSError:
-            pass
-        out, err = p.communicate()
-    return {'rc': 124 if timed_out else p.returncode, 'timed_out': timed_out, 'live_children': children,
+        out = err = None
+        waited, window = 0.0, 3.0
+        while True:
+            c0, _ = _proc_cpu_ticks(p.pid)
+            tw = time.time()
+            try:
+                out, err = p.communicate(timeout=window)
+                break                                   # finished after all: slow, not hung
+            except subprocess.TimeoutExpired:
+                pass
+            elapsed = time.time() - tw
+            waited += elapsed
+            c1, states = _proc_cpu_ticks(p.pid)
+            busy = (c1 - c0) if (c0 is not None and c1 is not None) else 0
+            stalled = elapsed > 2 * window              # the observer itself was not scheduled: the machine stalled again
+            if (not stalled and busy < 30) or waited > 60:
+                timed_out = True
+                children = _proc_children(p.pid)
+                hang = {'alive_after_timeout_s': round(waited, 1), 'cpu_ticks_in_last_window': busy, 'threads': sorted(states)[:40]}
+                break
+        if timed_out:
+            try:
+                os.killpg(p.pid, signal.SIGKILL)
+            except OSError:
+                pass
+            out, err = p.communicate()
+    return {'rc': 124 if timed_out else p.returncode, 'timed_out': timed_out, 'live_children': children, 'hang': hang,
             'stdout': out.decode('utf-8', 'replace'), 'stderr': err.decode('utf-8', 'replace'), 'wall': round(time.time() - t0, 3)}
 
 
@@ -299,6 +401,8 @@ def run_case(ctx, case, hook=False, timeout=20, keep=False):
             pass
     obs = []
     for r in range(case.get('runs', 1)):
+        if spec.get('generic') or spec.get('bigfiles') or spec.get('textdeps'):
+            refresh_changing_deps(root, spec, r + 1)
         if r > 0 and case.get('touch_inputs'):
             # same bytes, new mtime: the superficial comparison reports a change, the thorough one does not
             for i in range(spec['n']):
@@ -372,7 +476,8 @@ def oracle(case, o, first_run=True):
     if o['timed_out']:
         fail('C11', 'terminates', f'xvc pipeline run did not terminate within {o["wall"]} s '
              f'(step commands sleep at most {max(b["sleep_ms"] for b in case["behav"])} ms)',
-             live_children=o['live_children'], journal=J, stderr_tail=o['stderr'][-400:])
+             live_children=o['live_children'], hang=o.get('hang'), attempt=o.get('run'), journal=J, stderr_tail=o['stderr'][-400:],
+             steps_without_verdict=[f's{i}' for i in range(n) if i not in ends and f'[s{i}]' not in o['stdout'] and f'Step s{i} ' not in o['stderr']])
     else:
         for s in starts:
             if len(ends.get(s, [])) < len(starts[s]):
@@ -439,6 +544,20 @@ def oracle(case, o, first_run=True):
     return fails
 
 
+def _failed_threads(trace):
+    """names of the steps with a D (thread failure) line"""
+    names, out = {}, set()
+    for l in trace:
+        t = l.split(' ')
+        if len(t) >= 4 and t[1] == 'V':
+            names[t[2]] = t[3]
+    for l in trace:
+        t = l.split(' ')
+        if len(t) >= 3 and t[1] == 'D':
+            out.add(names.get(t[2], t[2]))
+    return out
+
+
 def trace_final_states(trace):
     names, final = {}, {}
     for l in trace:
@@ -473,6 +592,14 @@ def driver_input(case, trace, cid):
             L.append(f'dep {i} file {in_path(i)}')
     for i in spec.get('unspawnable', []):
         L.append(f'dep {i} file {nul_path(i)}')
+    for i in spec.get('generic', []):
+        L.append(f'dep {i} other')
+    for i, sizes in spec.get('bigfiles', {}).items():
+        for k in range(len(sizes)):
+            L.append(f'dep {i} file {big_path(i, k)}')
+    for i in spec.get('textdeps', []):
+        L += [f'dep {i} file lines_s{i}.txt', f'dep {i} file lines_s{i}.txt', f'dep {i} file params_s{i}.yaml',
+              f'dep {i} glob glb_s{i}_*.glb']
     for j in sorted({j for (_, j, k) in spec['edges'] if k in ('file', 'glob', 'globi')}):
         L.append(f'out {j} {out_path(j)}')
     L.append('trace-begin')
@@ -508,6 +635,8 @@ def signature(case, f):
             sig['kind'] = 'missing-dependency-file'
         elif spec.get('unspawnable'):
             sig['kind'] = 'unspawnable-command'
+        elif spec.get('generic') and f.get('detail', {}).get('hang') and not f['detail'].get('live_children'):
+            sig['kind'] = 'blocked-with-generic-dependency'
         elif _mixed_deps(case):
             sig['kind'] = 'mixed-done-and-broken-dependencies'
         else:
@@ -549,6 +678,15 @@ def drop_step(case, k):
         nspec['unspawnable'] = sorted(ren[i] for i in spec['unspawnable'] if i != k)
         if not nspec['unspawnable']:
             del nspec['unspawnable']
+    for key in ('generic', 'textdeps'):
+        if spec.get(key):
+            v = sorted(ren[i] for i in spec[key] if i != k)
+            if v:
+                nspec[key] = v
+    if spec.get('bigfiles'):
+        v = {str(ren[int(i)]): sz for i, sz in spec['bigfiles'].items() if int(i) != k}
+        if v:
+            nspec['bigfiles'] = v
     c = dict(case)
     c['spec'] = nspec
     c['behav'] = [b for i, b in enumerate(case['behav']) if i != k]
@@ -590,7 +728,9 @@ def minimise(ctx, case, prop, clause, hook, timeout, budget=14):
     return case
 
 
-def run_family(ctx, stream, cases, own, hook=False, timeout=20, workers=8, validate=True, max_report=3):
+def run_family(ctx, stream, cases, own, hook=False, timeout=20, workers=8, validate=True, max_report=3, confirm=True, shrink=True):
+    # confirm=False / shrink=False: for failures that are probabilistic by nature (a lock-order deadlock needs a particular
+    # interleaving): a hang is then judged by the observation of the hung process alone (run_xvc) and reported as found
     """Run cases in parallel, evaluate the oracle (and validate hook traces).  Failures of the properties in `own`
     are minimised and reported through chk.oracle_failure; failures of the other scheduler properties are noted."""
     chk = ctx.chk
@@ -618,6 +758,21 @@ def run_family(ctx, stream, cases, own, hook=False, timeout=20, workers=8, valid
         for case, obs, error in ex.map(work, cases):
             results.append((case, obs, error))
     chk.extra['programs'] = chk.extra.get('programs', 0) + len(distinct)
+    # a case that could not be built or run (an xvc CLI call exceeding its timeout on the loaded, shared machine) is
+    # repeated once, alone, before it counts as an infrastructure failure
+    retried = []
+    for case, obs, error in results:
+        if error:
+            first_error = error
+            try:
+                obs, error = run_case(ctx, case, hook=hook, timeout=timeout), None
+                st['infrastructure_retries'] = st.get('infrastructure_retries', 0) + 1
+                if st['infrastructure_retries'] <= 2:
+                    chk.notes.append(f'{stream}: a case could not be built/run at first ({first_error[:200]}) and was repeated successfully')
+            except Exception as ex:
+                error = repr(ex)
+        retried.append((case, obs, error))
+    results = retried
     # A timeout is only evidence of a hang if it can be confirmed: the machine is shared, and a stall of the whole
     # machine (observed once: 420 s) makes every run in flight exceed its timeout.  A run that timed out is repeated
     # alone; it is judged by the repetition unless that times out as well.
@@ -625,7 +780,7 @@ def run_family(ctx, stream, cases, own, hook=False, timeout=20, workers=8, valid
     genuine_kinds = set()
     for case, obs, error in results:
         kind = 'cycle' if has_cycle(case['spec']) else signature(case, {'property': 'C11', 'clause': 'terminates'})['kind']
-        if not error and any(o['timed_out'] for o in obs) and kind not in genuine_kinds:
+        if confirm and not error and any(o['timed_out'] for o in obs) and kind not in genuine_kinds:
             again = None
             for attempt in range(2):
                 try:
@@ -685,15 +840,30 @@ def run_family(ctx, stream, cases, own, hook=False, timeout=20, workers=8, valid
             if a is None:
                 continue
             st['traces_validated'] += 1
-            if a.startswith('valid') and not case.get('missing') and not case['spec'].get('unspawnable') and any(len(l.split(' ')) > 1 and l.split(' ')[1] == 'D' for l in o['trace']):
-                a = 'invalid at=' + next(l.split(' ')[0] for l in o['trace'] if len(l.split(' ')) > 1 and l.split(' ')[1] == 'D') + \
-                    ' reason=unexpected-thread-failure (the case has no missing dependency file and no unspawnable command; `die` steps model handler errors only)'
+            if a.startswith('valid') and not case.get('missing') and not case['spec'].get('unspawnable') and _failed_threads(o['trace']):
+                # a thread failure nobody asked for.  It is a run of the model (`die` may fire any time), so it only counts
+                # when it is reproducible: a spawn that fails for lack of resources on the loaded machine is not
+                who = _failed_threads(o['trace'])
+                try:
+                    again = run_case(ctx, case, hook=True, timeout=timeout)
+                except Exception:
+                    again = []
+                if any(_failed_threads(o2.get('trace', [])) & who for o2 in again):
+                    a = 'invalid at=' + next(l.split(' ')[0] for l in o['trace'] if len(l.split(' ')) > 1 and l.split(' ')[1] == 'D') + \
+                        f' reason=unexpected-thread-failure of {sorted(who)}, reproduced when the case was repeated (the case has no missing ' \
+                        'dependency file and no unspawnable command; `die` steps model handler errors only)'
+                else:
+                    st['unreproduced_thread_failures'] = st.get('unreproduced_thread_failures', 0) + 1
+                    chk.notes.append(f'{stream}: step thread(s) {sorted(who)} failed in one run of a case without injected errors and did not when it was repeated '
+                                     f'(resource shortage on the shared machine?): {[l for l in o["stderr"].split(chr(10)) if "broken" in l][:2]}')
             if not a.startswith('valid'):
                 st['trace_disagreements'] += 1
                 if st['trace_disagreements'] <= 3:
                     chk.disagreement(stream, case, {'trace': o['trace'][:400]}, a, 'hook trace is not a run of the scheduler model')
             else:
                 for tok in a.split(' ')[1:]:
+                    if tok.startswith('undelivered=') and tok != 'undelivered=0':
+                        chk.count('traces_with_states_still_queued_when_the_bulletin_stopped')
                     if tok.startswith('rules='):
                         for r in tok[6:].split(','):
                             if r:
@@ -705,9 +875,12 @@ def run_family(ctx, stream, cases, own, hook=False, timeout=20, workers=8, valid
         if prop not in own:
             chk.notes.append(f'{stream}: {len(lst)} run(s) violate {prop} clause `{clause}` ({kind}); reported by ./check {prop}: {f["what"]}')
             continue
-        small = minimise(ctx, case, prop, clause, hook, timeout=min(timeout, 8))
-        obs = run_case(ctx, small, hook=hook, timeout=min(timeout, 8))
-        ff = [x for oo in obs for x in oracle(small, oo) if x['property'] == prop and x['clause'] == clause]
+        if shrink:
+            small = minimise(ctx, case, prop, clause, hook, timeout=min(timeout, 8))
+            obs = run_case(ctx, small, hook=hook, timeout=min(timeout, 8))
+            ff = [x for oo in obs for x in oracle(small, oo) if x['property'] == prop and x['clause'] == clause]
+        else:
+            ff = []
         if not ff:
             small, ff = case, [f]
             obs = [o]
@@ -738,6 +911,14 @@ def describe(case):
     for i in range(spec['n']):
         if spec['inputs'][i]:
             L.append(f'xvc pipeline step dependency -s s{i} --file {in_path(i)}' + ('   # file deleted before the run' if i in case.get('missing', []) else ''))
+    for i in spec.get('generic', []):
+        L.append(f"xvc pipeline step dependency -s s{i} --generic 'cat {gen_path(i)}'   # {gen_path(i)} rewritten before every run")
+    for i, sizes in spec.get('bigfiles', {}).items():
+        L.append(f'xvc pipeline step dependency -s s{i} ' + ' '.join(f'--file {big_path(i, k)}' for k in range(len(sizes))) +
+                 f'   # sparse files of {sizes} MiB (truncate), size changed before every run')
+    for i in spec.get('textdeps', []):
+        L.append(f"xvc pipeline step dependency -s s{i} --lines 'lines_s{i}.txt::1-2' --regex 'lines_s{i}.txt:/^a/' --param 'params_s{i}.yaml::k' "
+                 f"--glob 'glb_s{i}_*.glb'   # all rewritten before every run")
     for i in spec.get('unspawnable', []):
         L.append(f"printf 'first\\nsecond\\0line\\nthird\\n' > {nul_path(i)}; xvc pipeline step dependency -s s{i} --line_items '{nul_path(i)}::1-3'"
                  '   # NUL byte in XVC_ALL_LINE_ITEMS: the command of this step cannot be spawned (EINVAL)')
@@ -750,9 +931,14 @@ def replay(chk, data, own, props_module):
     for f in data.get('failures', []):
         case = f['case']
         hook = bool(f.get('detail', {}).get('hook_build')) and ctx.xvc_hook
-        obs = run_case(ctx, case, hook=hook, timeout=12)
-        chk.evaluations += len(obs)
-        msgs = [x for o in obs for x in oracle(case, o) if x['property'] in own]
+        reps = 6 if f.get('signature', {}).get('kind') == 'blocked-with-generic-dependency' else 1   # needs an interleaving
+        obs, msgs = [], []
+        for _ in range(reps):
+            obs = run_case(ctx, case, hook=hook, timeout=12)
+            chk.evaluations += len(obs)
+            msgs = [x for o in obs for x in oracle(case, o) if x['property'] in own]
+            if msgs:
+                break
         print('pipeline:')
         for l in describe(case):
             print('   ', l)
